@@ -245,17 +245,16 @@ func cmpDiags(a, b diags.Diagnostic) int {
 }
 
 func cmpDiagnostics(sa, sb []diags.Diagnostic) int {
-	if len(sa) == 0 {
-		return -1
-	}
-	if len(sb) == 0 {
-		return 1
-	}
-
 	slices.SortStableFunc(sa, cmpDiags)
 	slices.SortStableFunc(sb, cmpDiags)
 
-	return cmpDiags(sa[0], sb[0])
+	// Reports can share their first diagnostic and only differ in the following ones.
+	for i := range min(len(sa), len(sb)) {
+		if v := cmpDiags(sa[i], sb[i]); v != 0 {
+			return v
+		}
+	}
+	return cmp.Compare(len(sa), len(sb))
 }
 
 func isSameDiagnostics(sa, sb []diags.Diagnostic) bool {
